@@ -138,7 +138,10 @@ func (st *c42State) onInterval(pre, post c21Snap, refill bool) {
 		return
 	}
 	r.Probe("c42_distribution")
-	payout := c21AnyNeg(c21Diff(post.SubMod, pre.SubMod))
+	// a subscription payout in the same EndBlock also feeds the community pool; its outflow from the
+	// subscription module can be hidden by an auto-renewal inflow in the same block, so the block's
+	// events are consulted as well
+	payout := c21AnyNeg(c21Diff(post.SubMod, pre.SubMod)) || s.BlockEmitted("lava_monthly_cu_tracker_provider_reward") || s.BlockEmitted("lava_subscription_payout")
 	cur := p.rewards[p.curID]
 	specs := make([]string, 0, len(cur))
 	for sp := range cur {
